@@ -391,12 +391,18 @@ def triple_classes(t):
 
 
 # ---- special model families (maximal degeneracy) ---------------------------------------------------
+def log_amp(lo_exp, hi_exp):
+    """magnitude log-uniform in [10^lo_exp, 10^hi_exp], random sign"""
+    return st.tuples(st.floats(lo_exp, hi_exp, allow_nan=False), st.booleans()).map(lambda t: (-1.0 if t[1] else 1.0) * 10.0 ** t[0])
+
+
 @st.composite
-def special_model_st(draw, cplx=None, max_modes=4, beta_lo=0.1, beta_hi=200.0, symm_modes=("default", "ignore", "custom")):
-    """non-interacting, atomic-limit and particle-hole symmetric Hubbard models on spin-1/2 single-orbital sites"""
+def special_model_st(draw, cplx=None, max_modes=4, beta_lo=0.1, beta_hi=200.0, symm_modes=("default", "ignore", "custom"), wide=False):
+    """non-interacting, atomic-limit and particle-hole symmetric Hubbard models on spin-1/2 single-orbital sites;
+    wide=True adds Hubbard clusters whose parameters span many orders of magnitude (strong coupling, tiny fields)"""
     if cplx is None:
         cplx = draw(st.booleans())
-    kind = draw(st.sampled_from(["free", "atomic", "ph-hubbard"]))
+    kind = draw(st.sampled_from(["free", "atomic", "ph-hubbard"] + (["wide", "wide"] if wide else [])))
     nsites = draw(st.integers(1, max(1, max_modes // 2)))
     labs = draw(st.lists(st.sampled_from(LABELS), min_size=nsites, max_size=nsites, unique=True))
     sites = [[l, 1, 2] for l in labs]
@@ -413,6 +419,24 @@ def special_model_st(draw, cplx=None, max_modes=4, beta_lo=0.1, beta_hi=200.0, s
     elif kind == "atomic":
         for l in labs:
             terms.append(P("coulombS", l, [draw(grid_amp(0, 32)), 0.0], [draw(grid_amp(-16, 16)), 0.0]))
+    elif kind == "wide":
+        # Hubbard cluster with parameters over many decades: U up to 1e4 (exchange 4t^2/U far below the hopping), hoppings
+        # down to 1e-4, optional tiny Zeeman field (splittings far below every other scale)
+        U = abs(draw(log_amp(-2, 4)))
+        ph = draw(st.booleans())
+        for l in labs:
+            Ul = U if draw(st.integers(0, 3)) else abs(draw(log_amp(-2, 4)))
+            lev = -Ul / 2 if ph else draw(st.one_of(log_amp(-3, 3), st.just(-Ul / 2)))
+            terms.append(P("coulombS", l, [Ul, 0.0], [lev, 0.0]))
+        for a in range(nsites - 1):
+            terms.append(P("hop3", labs[a], labs[a + 1], [draw(log_amp(-4, 1)), 0.0]))
+        if draw(st.integers(0, 2)) == 0:
+            h = abs(draw(log_amp(-13, -1)))
+            l = draw(st.sampled_from(labs))
+            if draw(st.booleans()):      # longitudinal field h (n_up - n_dn) / transverse field h (c+_up c_dn + h.c.)
+                terms += with_hc([h, 0.0], [[1, l, 0, 0], [0, l, 0, 0]]) + with_hc([-h, 0.0], [[1, l, 0, 1], [0, l, 0, 1]])
+            else:
+                terms += with_hc([h, 0.0], [[1, l, 0, 0], [0, l, 0, 1]])
     else:
         U = draw(grid_amp(1, 32))
         for l in labs:
@@ -429,7 +453,8 @@ def special_model_st(draw, cplx=None, max_modes=4, beta_lo=0.1, beta_hi=200.0, s
 
 
 def any_model_st(special_share=0.3, **kw):
-    skw = {k: v for k, v in kw.items() if k in ("cplx", "max_modes", "beta_lo", "beta_hi", "symm_modes")}
+    skw = {k: v for k, v in kw.items() if k in ("cplx", "max_modes", "beta_lo", "beta_hi", "symm_modes", "wide")}
+    kw = {k: v for k, v in kw.items() if k != "wide"}
     return st.one_of(model_st(**kw), model_st(**kw), special_model_st(**skw)) if special_share else model_st(**kw)
 
 
